@@ -1,5 +1,105 @@
 From PFDL Require Import NetModel NetRun NetC08 NetQuiescent.
 
+(* ==== headline: run to quiescence, for every net state, with or without run-time generation ==== *)
+
+(* when evaluate_petri_net returns, no transition of the net is enabled *)
+Theorem C02q_evaluate_leaves_nothing_enabled :
+  forall tasks env f s u s',
+    evaluate tasks env f s = Ok (u, s') ->
+    forall t, In t (ns_trans s') -> enabled s' t = false.
+Proof. exact evaluate_all_quiescent. Qed.
+Print Assumptions C02q_evaluate_leaves_nothing_enabled.
+
+(* an accepted event (fire_event returned True): nothing is enabled when it returns *)
+Theorem C02q_accepted_event_leaves_nothing_enabled :
+  forall tasks env f ev s s',
+    sched_fire_event tasks env f ev s = Ok (true, s') ->
+    forall t, In t (ns_trans s') -> enabled s' t = false.
+Proof. exact sched_fire_event_true_quiescent. Qed.
+Print Assumptions C02q_accepted_event_leaves_nothing_enabled.
+
+Theorem C02q_fire_event_keeps_quiescent :
+  forall tasks env f ev s b s',
+    sched_fire_event tasks env f ev s = Ok (b, s') -> quiescent s -> quiescent s'.
+Proof. exact sched_fire_event_keeps_quiescent. Qed.
+Print Assumptions C02q_fire_event_keeps_quiescent.
+
+Theorem C02q_accepted_finish_leaves_nothing_enabled :
+  forall tasks env f s id s',
+    net_api_call tasks env f s (AFinish id) = Ok (true, s') ->
+    forall t, In t (ns_trans s') -> enabled s' t = false.
+Proof. exact api_finish_accepted_quiescent. Qed.
+Print Assumptions C02q_accepted_finish_leaves_nothing_enabled.
+
+Theorem C02q_accepted_start_leaves_nothing_enabled :
+  forall tasks env f s b s',
+    existsb (event_eqb EvStart) (ns_awaited s) = true ->
+    has_place s (ns_start_place s) = true ->
+    net_api_call tasks env f s AStart = Ok (b, s') ->
+    forall t, In t (ns_trans s') -> enabled s' t = false.
+Proof. exact api_start_accepted_quiescent. Qed.
+Print Assumptions C02q_accepted_start_leaves_nothing_enabled.
+
+Theorem C02q_any_call_keeps_quiescent :
+  forall tasks env f s c b s',
+    net_api_call tasks env f s c = Ok (b, s') ->
+    (forall t, In t (ns_trans s) -> enabled s t = false) ->
+    forall t, In t (ns_trans s') -> enabled s' t = false.
+Proof. exact api_call_keeps_quiescent_dyn. Qed.
+Print Assumptions C02q_any_call_keeps_quiescent.
+
+Theorem C02q_any_call_sequence_keeps_quiescent :
+  forall tasks env f s s',
+    api_reach tasks env f s s' -> quiescent s -> quiescent s'.
+Proof. exact api_reach_quiescent_dyn. Qed.
+Print Assumptions C02q_any_call_sequence_keeps_quiescent.
+
+Theorem C02q_scheduler_always_quiescent :
+  forall tasks env test_ids f s0 s',
+    net_init tasks test_ids = Ok s0 ->
+    quiescentb s0 = true ->
+    api_reach tasks env f s0 s' ->
+    forall t, In t (ns_trans s') -> enabled s' t = false.
+Proof. exact scheduler_always_quiescent. Qed.
+Print Assumptions C02q_scheduler_always_quiescent.
+
+Theorem C02q_quiescentb_decides :
+  forall s, quiescentb s = true <-> (forall t, In t (ns_trans s) -> enabled s t = false).
+Proof. exact quiescentb_spec. Qed.
+Print Assumptions C02q_quiescentb_decides.
+
+(* the invariant behind it: every function of the block either leaves marking and structure
+   of the net as they were, or returns with nothing enabled *)
+Theorem C02q_block_unchanged_or_quiescent :
+  forall tasks env f,
+    (forall s u s', evaluate tasks env f s = Ok (u, s') -> quiescent s') /\
+    (forall c, fpres unchanged_or_quiescent (run_cb tasks env f c)) /\
+    (forall c s u s', is_parloop_cb c = true -> run_cb tasks env f c s = Ok (u, s') -> quiescent s') /\
+    (forall a, fpres unchanged_or_quiescent (on_task_started tasks env f a)) /\
+    (forall a, fpres unchanged_or_quiescent (on_service_started tasks env f a)) /\
+    (forall a, fpres unchanged_or_quiescent (on_service_finished tasks env f a)) /\
+    (forall a, fpres unchanged_or_quiescent (on_task_finished tasks env f a)) /\
+    (forall k a b, fpres unchanged_or_quiescent (notify_user tasks env f k a b)) /\
+    (forall k a, fpres unchanged_or_quiescent (engine_reacts tasks env f k a)) /\
+    (forall ev, fpres unchanged_or_quiescent (sched_fire_event tasks env f ev)) /\
+    (forall ev, fpres unchanged_or_quiescent (logic_fire_event tasks env f ev)).
+Proof. exact quiescent_block. Qed.
+Print Assumptions C02q_block_unchanged_or_quiescent.
+
+(* the scan with an arbitrary callback runner that satisfies that invariant *)
+Theorem C02q_scan_leaves_nothing_enabled :
+  forall rc snap,
+    (forall c, fpres unchanged_or_quiescent (rc c)) ->
+    (forall pl s u s', is_parloop_cb pl = true -> rc pl s = Ok (u, s') -> quiescent s') ->
+    forall g index s u s',
+      scan_with rc snap g index s = Ok (u, s') ->
+      disabled_below index s ->
+      List.length (ns_trans s) = snap \/ quiescent s ->
+      quiescent s'.
+Proof. exact scan_with_all_quiescent. Qed.
+Print Assumptions C02q_scan_leaves_nothing_enabled.
+
+(* ==== the scan and the snapshot (statements about what one evaluation looked at) ==== *)
 (* the scan of evaluate_petri_net, for an arbitrary callback runner: a scan ends either with
    every transition below the snapshot disabled, or in the parallel-loop exit *)
 Theorem C02q_scan_pass_leaves_scanned_transitions_disabled :
@@ -186,3 +286,64 @@ Theorem C02q_api_call_only_grows :
     net_api_call tasks env f s c = Ok (b, s') -> le_ns s s'.
 Proof. exact api_call_le_ns. Qed.
 Print Assumptions C02q_api_call_only_grows.
+
+(* ==== the frame rule and its instances ==== *)
+
+Theorem C02q_frame_rule_block :
+  forall (R : NS -> NS -> Prop), frame_sched R -> frame_net R ->
+  forall tasks env f,
+    fpres R (evaluate tasks env f) /\
+    (forall c, fpres R (run_cb tasks env f c)) /\
+    (forall a, fpres R (on_task_started tasks env f a)) /\
+    (forall a, fpres R (on_service_started tasks env f a)) /\
+    (forall a, fpres R (on_service_finished tasks env f a)) /\
+    (forall a, fpres R (on_task_finished tasks env f a)) /\
+    (forall k a b, fpres R (notify_user tasks env f k a b)) /\
+    (forall k a, fpres R (engine_reacts tasks env f k a)) /\
+    (forall ev, fpres R (sched_fire_event tasks env f ev)) /\
+    (forall ev, fpres R (logic_fire_event tasks env f ev)).
+Proof. intros R FS FN. exact (frame_block FS FN). Qed.
+Print Assumptions C02q_frame_rule_block.
+
+Theorem C02q_frame_rule_generator :
+  forall (R : NS -> NS -> Prop), frame_sched R -> frame_net R ->
+  forall tasks f,
+    (forall ctx tn pre ss first last il, fpres R (generate_statements tasks f ctx tn pre ss first last il)) /\
+    (forall ctx tn path s t1 t2 il, fpres R (generate_stmt tasks f ctx tn path s t1 t2 il)) /\
+    (forall c at_ ctx t1 t2 il, fpres R (generate_task_call tasks f c at_ ctx t1 t2 il)).
+Proof. intros R FS FN. exact (frame_generate FS FN). Qed.
+Print Assumptions C02q_frame_rule_generator.
+
+Theorem C02q_frame_instances :
+  frame_ok le_ns /\ frame_ok fixed_fields /\ frame_ok counters_grow /\ frame_ok places_stable' /\
+  frame_sched unchanged_or_quiescent.
+Proof.
+  exact (conj le_ns_frame (conj fixed_fields_frame (conj counters_grow_frame
+        (conj places_stable_frame unchanged_or_quiescent_sched)))).
+Qed.
+Print Assumptions C02q_frame_instances.
+
+Theorem C02q_fire_event_fixed_fields :
+  forall tasks env f ev s b s',
+    sched_fire_event tasks env f ev s = Ok (b, s') ->
+    ns_start_place s' = ns_start_place s /\ ns_final_place s' = ns_final_place s /\
+    ns_test_ids s' = ns_test_ids s /\ ns_ls s' = ns_ls s /\ ns_obs s' = ns_obs s.
+Proof. exact sched_fire_event_fixed_fields. Qed.
+Print Assumptions C02q_fire_event_fixed_fields.
+
+Theorem C02q_fire_event_counters_grow :
+  forall tasks env f ev s b s',
+    sched_fire_event tasks env f ev s = Ok (b, s') ->
+    ns_fresh s <= ns_fresh s' /\ ns_tid s <= ns_tid s' /\ ns_sid s <= ns_sid s' /\
+    ns_nss s <= ns_nss s' /\ ns_nnot s <= ns_nnot s' /\
+    exists es, ns_log s' = es ++ ns_log s.
+Proof. exact sched_fire_event_counters_grow. Qed.
+Print Assumptions C02q_fire_event_counters_grow.
+
+Theorem C02q_fire_event_places_stable :
+  forall tasks env f ev s b s',
+    sched_fire_event tasks env f ev s = Ok (b, s') ->
+    forall p, (nth_error (ns_places s) p = Some None -> nth_error (ns_places s') p = Some None) /\
+              (p < List.length (ns_places s) -> has_place s' p = true -> has_place s p = true).
+Proof. exact sched_fire_event_places_stable. Qed.
+Print Assumptions C02q_fire_event_places_stable.
